@@ -91,22 +91,45 @@ impl SerdeParser {
 
     /// Parse rename value from field attribute
     fn parse_rename(&self, tokens: &str) -> Option<String> {
-        // Look for "rename" but not "rename_all"
-        let mut search_start = 0;
-        while let Some(pos) = tokens[search_start..].find("rename") {
-            let abs_pos = search_start + pos;
+        // The item name is looked up outside string literals (a value such as "is_rename" is no
+        // rename); the masked copy keeps the byte offsets of the original text
+        let masked = super::validator_parser::mask_string_literals(tokens);
 
-            // Check if this is followed by "_all"
-            let after_rename = &tokens[abs_pos + 6..];
-            if after_rename.trim_start().starts_with("_all") {
-                // This is rename_all, skip it
-                // Move past "rename" only: the whitespace before "_all" has no fixed width,
-                // and a fixed offset can land inside a multi-byte character
-                search_start = abs_pos + 6;
+        // Look for the item "rename": a whole word (not `rename_all`, not the tail of `de_rename`)
+        // that is followed by `=` or by `(serialize = "..", ..)`
+        let mut search_start = 0;
+        while let Some(pos) = masked[search_start..].find("rename") {
+            let abs_pos = search_start + pos;
+            // Move past "rename" only: what follows has no fixed width, and a fixed offset can
+            // land inside a multi-byte character
+            search_start = abs_pos + 6;
+
+            let is_word_start =
+                !masked[..abs_pos].ends_with(|c: char| c.is_alphanumeric() || c == '_');
+            let after_rename = masked[abs_pos + 6..].trim_start();
+            if !is_word_start || !(after_rename.starts_with('=') || after_rename.starts_with('(')) {
                 continue;
             }
 
-            // This is a plain "rename", extract the value
+            // rename(serialize = "..", deserialize = ".."): the bindings describe what serde
+            // writes, so the value is the one of `serialize` (none: the name is not changed)
+            let value_start = if after_rename.starts_with('(') {
+                let open = masked.len() - after_rename.len();
+                let close = masked[open..].find(')').map_or(masked.len(), |p| open + p);
+                let serialize = masked[open..close]
+                    .match_indices("serialize")
+                    .map(|(p, _)| open + p)
+                    .find(|p| !masked[..*p].ends_with(|c: char| c.is_alphanumeric() || c == '_'));
+                match serialize {
+                    Some(p) => p + "serialize".len(),
+                    None => break,
+                }
+            } else {
+                abs_pos + 6
+            };
+
+            // Extract the value from the original text
+            let after_rename = &tokens[value_start..];
             if let Some(eq_pos) = after_rename.find('=') {
                 let after_eq = &after_rename[eq_pos + 1..].trim_start();
 
